@@ -2,6 +2,7 @@ package main
 
 import (
 	"go/ast"
+	"go/token"
 	"go/types"
 
 	"golang.org/x/tools/go/cfg"
@@ -14,6 +15,8 @@ type FCFG struct {
 	Fn    ast.Node
 	where map[ast.Node]nodePos // every sub node of a block node -> position
 	idom  []int                // immediate dominator by block index, -1 = none/unreachable
+	info  *types.Info
+	switchOf map[*ast.CaseClause]*ast.SwitchStmt
 	preds [][]int
 	live  []bool
 }
@@ -72,7 +75,17 @@ func (p *Program) CFG(fn ast.Node) *FCFG {
 		}
 		return !noReturn(info, call)
 	})
-	f := &FCFG{G: g, Fn: fn, where: map[ast.Node]nodePos{}}
+	f := &FCFG{G: g, Fn: fn, where: map[ast.Node]nodePos{}, info: info, switchOf: map[*ast.CaseClause]*ast.SwitchStmt{}}
+	ast.Inspect(body, func(x ast.Node) bool {
+		if sw, ok := x.(*ast.SwitchStmt); ok {
+			for _, cl := range sw.Body.List {
+				if cc, ok := cl.(*ast.CaseClause); ok {
+					f.switchOf[cc] = sw
+				}
+			}
+		}
+		return true
+	})
 	for _, b := range g.Blocks {
 		for i, n := range b.Nodes {
 			np := nodePos{b, i}
@@ -225,25 +238,39 @@ type Guard struct {
 	Val  bool
 }
 
-// isCondBlock reports whether the block ends in a two way branch on an
-// expression and returns that expression.
-func condOf(b *cfg.Block) ast.Expr {
+// condOf reports whether the block ends in a two way branch on a boolean
+// expression and returns that expression. Loop and switch headers of go/cfg
+// also have two successors; they are told apart by the type of the last node.
+func (f *FCFG) condOf(b *cfg.Block) ast.Expr {
 	if len(b.Succs) != 2 || len(b.Nodes) == 0 {
 		return nil
 	}
 	switch b.Kind {
-	case cfg.KindRangeLoop, cfg.KindSelectCaseBody, cfg.KindSwitchCaseBody, cfg.KindSwitchNextCase:
+	case cfg.KindRangeLoop, cfg.KindSelectCaseBody:
 		return nil
-	}
-	if b.Stmt != nil {
-		switch b.Stmt.(type) {
-		case *ast.RangeStmt, *ast.SwitchStmt, *ast.TypeSwitchStmt, *ast.SelectStmt, *ast.CaseClause, *ast.CommClause:
-			return nil
-		}
 	}
 	e, ok := b.Nodes[len(b.Nodes)-1].(ast.Expr)
 	if !ok {
 		return nil
+	}
+	if f.info != nil {
+		t := f.info.TypeOf(e)
+		if t == nil {
+			return nil
+		}
+		if bt, ok := t.Underlying().(*types.Basic); !ok || bt.Info()&types.IsBoolean == 0 {
+			return nil
+		}
+		// the case expression of a tag switch over booleans is no branch condition on its own
+		if cc, ok := b.Stmt.(*ast.CaseClause); ok {
+			for _, ce := range cc.List {
+				if ce == e {
+					if sw, ok := f.switchOf[cc]; ok && sw.Tag != nil {
+						return nil
+					}
+				}
+			}
+		}
 	}
 	return e
 }
@@ -268,19 +295,40 @@ func (f *FCFG) Guards(n ast.Node) []Guard {
 		}
 		d = id
 		blk := f.G.Blocks[d]
-		if cond := condOf(blk); cond != nil {
+		if cond := f.condOf(blk); cond != nil {
 			for k, s := range blk.Succs {
 				si := int(s.Index)
 				if blk.Succs[0] == blk.Succs[1] {
 					break
 				}
 				if len(f.preds[si]) == 1 && f.blockDominates(si, target) {
-					res = append(res, Guard{Cond: cond, Val: k == 0})
+					expandGuard(cond, k == 0, &res)
 				}
 			}
 		}
 	}
 	return res
+}
+
+// expandGuard splits a branch condition with a known outcome into the leaf
+// facts it implies (go/cfg does not split short circuit operators):
+// A && B true => A true, B true; A || B false => A false, B false; !A flips.
+func expandGuard(cond ast.Expr, val bool, out *[]Guard) {
+	cond = ast.Unparen(cond)
+	switch t := cond.(type) {
+	case *ast.UnaryExpr:
+		if t.Op == token.NOT {
+			expandGuard(t.X, !val, out)
+			return
+		}
+	case *ast.BinaryExpr:
+		if t.Op == token.LAND && val || t.Op == token.LOR && !val {
+			expandGuard(t.X, val, out)
+			expandGuard(t.Y, val, out)
+			return
+		}
+	}
+	*out = append(*out, Guard{Cond: cond, Val: val})
 }
 
 // PathAvoiding reports whether there is a path that starts right after the
